@@ -191,7 +191,7 @@ def gen_scenario(r, scripts, nfiles=None, use_ai=True, use_lua=True, dirs=True, 
     prev = None
     for fi in range(nfiles):
         ext, opener = r.choice(HOSTS)
-        d = r.choice(["", "", "src/", "docs/sub/", "a/", "b/"]) if dirs else ""
+        d = r.choice(["", "", "src/", "docs/sub/", "a/", "b/", "vendor/chart.js/", "notes.md/"]) if dirs else ""      # directories may be named like files
         path = "%sf%d.%s" % (d, fi, ext)
         if dirs and prev and r.random() < 0.3:
             # same file name as the previous file, in another directory (e.g. f0.py and src/f0.py): a root-relative path must never
